@@ -404,6 +404,7 @@ class Engine:
         if self.use_uf_mul:
             p = self.mulf(a, b)
             self.pending_lemmas.append(self.mul_facts(a, b, p))
+            self.pending_lemmas.append(p == self.mulf(b, a))  # commutativity instance
             return p
         return zsimp(a * b)
 
